@@ -232,7 +232,11 @@ def t_fixed(ctx):
     ctx.exhaustive_done('published vectors; crafted digests incl. every '
                         'single-bit and every 2^160-2^k pattern')
     from vlib import rsa as R
-    ids = ['', '-', 'Notch', 'a' * 20, 'é世\U0001f600', '\x00', ' ']
+    ids = ['', '-', 'Notch', 'a' * 20, 'é世\U0001f600', '\x00', ' ',
+           # ids around the 1- / 2- / 3-byte length-prefix boundaries of a
+           # protocol string (the hash covers the text only)
+           'S' * 127, 'S' * 128, 'é' * 64, 'id-' * 100, 'x' * 16383,
+           'y' * 16384, '世' * 6000]
     secrets = [b'', bytes(16), b'\xff' * 16, bytes(range(16))]
     keys = [b'', R.key(1024)['der'], R.key(2048)['der'], b'\x00' * 3] + \
         [v for b in (1024, 2048)
@@ -283,6 +287,8 @@ def t_search(ctx, base, budget):
 def t_random(ctx, n):
     strat = st.fixed_dictionaries({
         'server_id': st.one_of(st.text(max_size=20),
+                               st.sampled_from([127, 128, 129, 200, 16384]
+                                               ).map(lambda n: 's' * n),
                                st.text('0123456789abcdef', min_size=0,
                                        max_size=20), st.just('-')),
         'secret': st.one_of(st.binary(min_size=16, max_size=16),
@@ -312,7 +318,8 @@ def t_random(ctx, n):
 
 
 def t_login_path(ctx):
-    ids = ['', 'Notch', '0123456789abcdef', 's\u00e9rveur-\u00fcn\u00ef',
+    ids = ['S' * 128, '\u00e9' * 64 + 'z', 'q' * 300] + \
+          ['', 'Notch', '0123456789abcdef', 's\u00e9rveur-\u00fcn\u00ef',
            '\u670d\u52a1\u5668-01', 'id\U0001f600', '\x00', ' a ',
            '-5f3a9c0d12e4b7a1', '-1', '--', '-']
     k = 0
@@ -330,7 +337,7 @@ def t_login_path(ctx):
     # the session service answers the join with an error (transient 5xx,
     # 403, no status): every join the client sends names the same hash
     for v in (47, 340, 757):
-        for sid in ids[:4] + ids[8:11]:
+        for sid in ids[:7] + ids[11:14]:
             for fails in ([503], [500], [403], [None], [502, 503]):
                 login_case(ctx, {
                     'version': v, 'terminal': ('success',), 'token': True,
